@@ -230,6 +230,17 @@ func AllUserActions() []*UserAction {
 				})
 			},
 			After: func(mon MonState) { mon["req.editPlan"] = "1" }},
+		{Name: "editPlanMid", OneShot: true, // every step becomes the absolute count 2: between what step one created and what a later step asked for
+			Guard: func(w *World, sc *Scenario, mon MonState) bool { return inProgress(getRollout(w, sc)) },
+			Do: func(w *World, sc *Scenario) error {
+				return updateRolloutSpec(w, sc, func(ro *rolloutsv1beta1.Rollout) {
+					steps := ro.Spec.Strategy.GetSteps()
+					for i := range steps {
+						steps[i].Replicas = parseIS("2")
+					}
+				})
+			},
+			After: func(mon MonState) { mon["req.editPlan"] = "1" }},
 		{Name: "editPlanMore", OneShot: true, // raise every step's replicas (percent +20, capped at 100)
 			Guard: func(w *World, sc *Scenario, mon MonState) bool { return inProgress(getRollout(w, sc)) },
 			Do: func(w *World, sc *Scenario) error {
